@@ -374,10 +374,10 @@ def _run_ngon(case, ctx):
         K = 40.0 * max(1.0, 1.0 / d**2)
         if e1[k] / sc[k] > K / n**2 + 1e-9:
             out.append(Violation({"sub": "ngon_not_converging", "n": n}, f"n={n}: rel. error {e1[k] / sc[k]:.3g} > {K / n**2:.3g} at d/L={d:.3g}"))
-        elif e1[k] / sc[k] > 1e-7 and (np.pi * dia / n) < 0.3 * d * body.L and not 2.0 <= e1[k] / max(e2[k], 1e-300) <= 16.0:
+        elif e1[k] / sc[k] > 1e-7 and (np.pi * dia / n) < 0.3 * d * body.L and not 2.0 <= e1[k] / max(e2[k], 1e-300):
             # (the 1/n^2 regime needs polygon sides much shorter than the distance to the wire)
             out.append(Violation({"sub": "ngon_convergence_order", "n": n},
-                                 f"error ratio between n={n} and 2n is {e1[k] / max(e2[k], 1e-300):.3g}, expected ~4 (accepted 2..16: the leading term can nearly cancel at single observers) (errors {e1[k] / sc[k]:.3g}, {e2[k] / sc[k]:.3g})"))
+                                 f"error ratio between n={n} and 2n is {e1[k] / max(e2[k], 1e-300):.3g}, expected ~4 (a ratio below 2 means the polygon does not converge at second order; faster is fine: the leading term can cancel at single observers) (errors {e1[k] / sc[k]:.3g}, {e2[k] / sc[k]:.3g})"))
     ctx.mark_nontrivial(case)
     ctx.sample(case, nontrivial=True)
     return out[:1]
